@@ -3,7 +3,8 @@
 (* recorded from real runs of random deeper trees.  Law level (rejected = violation):    *)
 (* every probe reports the lexical mode; every recorded frame was entered in the lexical *)
 (* mode of its node.  Mechanism level (rejected = "drift..."): the recorded enter events  *)
-(* are exactly the enter actions of GlomFrames!Start on the same tree.                    *)
+(* are exactly the enter actions of GlomFrames!Start on the same tree.  Plain callable   *)
+(* leaves (kind "call") log "CALLED": which of them ran, in which order, is "probes-run". *)
 EXTENDS GlomFrames, Json, IOUtils
 
 Rows == ndJsonDeserialize(IOEnv.TRACE_FILE)
@@ -16,7 +17,7 @@ Verdict(r) ==
   LET m == Start(r.tree, <<>>, <<>>)
       me == Enters(m.st.acts) IN
   IF (m.out = "ok") # (r.out = "ok") THEN "outcome"
-  ELSE IF \E j \in 1..Len(r.log) : r.log[j].v # LexMode(r.tree, r.log[j].p, "AUTO") THEN "probe-mode"
+  ELSE IF \E j \in 1..Len(r.log) : r.log[j].v # "CALLED" /\ r.log[j].v # LexMode(r.tree, r.log[j].p, "AUTO") THEN "probe-mode"
   ELSE IF \E j \in 1..Len(r.enters) : r.enters[j].mode # LexMode(r.tree, r.enters[j].path, "AUTO") THEN "enter-mode"
   ELSE IF Len(r.log) # Len(m.st.log) \/ \E j \in 1..Len(r.log) : r.log[j].p # m.st.log[j].p THEN "probes-run"
   ELSE IF Len(me) # Len(r.enters) THEN "drift-frames"
